@@ -18,6 +18,36 @@ JUNK = ["abc", "", "1.2.3", "1/2/3", "x/2", "--1", "a.b", "1,5", "one", "1/0",
 OTHER = [None, {}, object(), set(), b"1", 1j]
 
 
+class UserDuration(cp.abc.Duration):
+    """a user-defined duration class: only beat_count is provided"""
+
+    def __init__(self, t):
+        self._t = t
+
+    @property
+    def beat_count(self):
+        return self._t / 960
+
+    @beat_count.setter
+    def beat_count(self, b):
+        self._t = round(b * 960)
+
+
+class UserTempo(cp.abc.Tempo):
+    """a user-defined tempo class: only bpm is provided"""
+
+    def __init__(self, bpm):
+        self._b = bpm
+
+    @property
+    def bpm(self):
+        return self._b
+
+    @bpm.setter
+    def bpm(self, b):
+        self._b = b
+
+
 def ticks_of(x):
     v = float(x) * TICK
     r = round(v)
@@ -69,6 +99,25 @@ def run(case):
             return out
         except Exception as e:  # noqa
             return err(e)
+    if k == "rarith":
+        # a plain number on the left of the operator
+        d, r = dur(case[2]), raw(case[4])
+        before = (ticks_of(d.beat_count), type(d).__name__)
+        try:
+            res = {"add": lambda: r + d, "sub": lambda: r - d, "mul": lambda: r * d, "div": lambda: r / d}[case[1]]()
+        except Exception as e:  # noqa
+            return err(e)
+        if not isinstance(res, cp.abc.Duration):
+            return ["ok", "not-a-duration:" + type(res).__name__, 0]
+        out = ["ok", "D" if isinstance(res, cp.DirectDuration) else "R", ticks_of(res.beat_count)]
+        flags = []
+        if res is d:
+            flags.append("result-is-operand")
+        if (ticks_of(d.beat_count), type(d).__name__) != before:
+            flags.append("right-operand-changed")
+        if flags:
+            out.append(["flags"] + flags)
+        return out
     if k == "arith":
         d, r = dur(case[2]), raw(case[4])
         before = (ticks_of(d.beat_count), type(d).__name__)
@@ -133,8 +182,10 @@ def run(case):
         t = p[0]
         same = None
         if t == "same":
-            same = (cp.DirectDuration(1.5) if int(case[2]) % 2 else cp.RatioDuration("2/3")) if k == "parse_d" else \
-                (cp.DirectTempo(72) if int(case[2]) % 2 else cp.FlexTempo([[0, 60], [1, 30]]))
+            # an existing object of any duration / tempo class, the user's own included (the documented extension point)
+            n4 = int(case[2]) % 4
+            same = ([cp.RatioDuration("2/3"), cp.DirectDuration(1.5), UserDuration(480), UserDuration(0)][n4] if k == "parse_d" else
+                    [cp.FlexTempo([[0, 60], [1, 30]]), cp.DirectTempo(72), cp.WesternTempo(60, reference=2), UserTempo(90)][n4])
             obj = same
         elif t == "int":
             obj = int(p[1])
@@ -188,6 +239,21 @@ def run(case):
         if isinstance(r, cp.abc.Tempo):
             return ["ok", "direct", round(r.bpm * TICK)]
         return ["ok", "direct" if isinstance(r, cp.DirectDuration) else "ratio", ticks_of(r.beat_count)]
+    if k == "cfg":
+        # the resolution is a public setting (ROUND_DURATION_TO_N_DIGITS): both duration kinds and the plain number
+        # must follow it alike, whenever it is changed
+        digits, q = int(case[1]), Fraction(int(case[2]), int(case[3]))
+        old = cp.configurations.ROUND_DURATION_TO_N_DIGITS
+        cp.configurations.ROUND_DURATION_TO_N_DIGITS = digits
+        try:
+            d, r = cp.DirectDuration(float(q)), cp.RatioDuration(q)
+            want = round(float(q), digits)
+            return ["ok", b(d.beat_count == want), b(r.beat_count == want), b(d == r), b(d < r or d > r), b(d == float(q)), b(r == float(q)),
+                    b((d + r).beat_count == round(want + want, digits))]
+        except Exception as e:  # noqa
+            return err(e)
+        finally:
+            cp.configurations.ROUND_DURATION_TO_N_DIGITS = old
     if k == "seconds":
         bpm = int(case[1]) / int(case[2])
         t = cp.DirectTempo(bpm)
